@@ -14,6 +14,7 @@ import collections
 import itertools as it
 import locale
 import re
+from decimal import Decimal, ROUND_HALF_UP
 from enum import Enum
 from typing import Iterable, List
 
@@ -298,7 +299,8 @@ class TextFormat:
             return ''.join(t.token for t in tokenized_format.tokens)
 
     def _number_converter(self, number_value, tokenized: Tokenized):
-        number_value *= 100 ** tokenized.percents
+        # scale and round in decimal: excel shows 0.285 as 29% and 0.125 as 0.13
+        number_value = Decimal(str(number_value)) * 100 ** tokenized.percents
         number_format = ''.join(
             t.token for t in tokenized.tokens if t.type == self.TokenType.NUMBER)
         thousands = self.thousands_format if tokenized.thousands else ''
@@ -306,10 +308,11 @@ class TextFormat:
         if tokenized.decimal:
             left_num_format, right_num_format = number_format.split('.', 1)
             decimals = len(right_num_format)
+            number_value = self._round_half_up(number_value, decimals)
             left_side, right_side = f'{number_value:#{thousands}.{decimals}f}'.split('.')
             right_side = right_side.rstrip('0')
         else:
-            left_side = f'{int(round(number_value, 0)):{thousands}}'
+            left_side = f'{int(self._round_half_up(number_value, 0)):{thousands}}'
             right_side = None
         left_side = left_side.lstrip('0')
 
@@ -323,6 +326,13 @@ class TextFormat:
             return f'{"".join(left[::-1])}.{right_side}'
         else:
             return ''.join(left[::-1])
+
+    @staticmethod
+    def _round_half_up(number_value, decimals):
+        """excel rounds the decimal rendering half away from zero, float formatting
+        rounds the binary value half to even: TEXT(0.125, "0.00") is 0.13"""
+        return float(number_value.quantize(
+            Decimal(f'1E-{decimals}'), rounding=ROUND_HALF_UP))
 
     def _number_token_converter(self, tokens, number, left_side=False):
         digits_iter = iter(number[::-1] if left_side else number)
